@@ -61,6 +61,27 @@ def run(ctx):
     for s in seqs:
         ctx.case("own:" + "-".join(s))
     ctx.sample({"ownership_ops": list(seqs[len(seqs) // 2]), "rows": traces[len(seqs) // 2]})
+    # ownership in use: the reconnect manager (no instance supplied) creates a zeroconf instance when it first listens
+    # for mDNS records and closes it when it is stopped - whatever happened in between (Reconnect.tla zc_new / zc_close)
+    import random
+
+    from vf import reconsim
+    from vf.props import c18
+
+    rng = random.Random(ctx.seed + 20)
+    sysf = reconsim.systematic()
+    cases = sysf[:8] + rng.sample(sysf[8:], 300 if ctx.quick else 3000) + [reconsim.random_story(rng, rng.randrange(2, 14)) for _ in range(300 if ctx.quick else 5000)]
+    res = c18.run_family(ctx, "manager_zeroconf", cases)
+    ctx.evaluations += res["n"]
+    ctx.distinct |= {("manager_zeroconf", i) for i in range(res["n"])}
+    ctx.extra["reached_manager_zeroconf"] = res["reach"]
+    for f in res["findings"]:
+        evs = {r["e"][0] for r in f["rows"][-3:]} | {f["event"]}
+        if evs & {"zc_new", "zc_close", "zc_add", "zc_remove", "stop_ret"}:
+            ctx.violation(f"Reconnect/manager_zeroconf/{f['event']}", {"kind": "recon-trace", "family": "manager_zeroconf", **f})
+        else:
+            ctx.notes.append(f"manager mismatch outside C20 ({f['event']}) seen in family manager_zeroconf")
+    ctx.notes[:] = sorted(set(ctx.notes))[:20]
     ctx.assumptions += [
         "a non-numeric IPv6 scope id maps to 0; an OS-resolver error for one host aborts the whole resolution with a connection error",
         "fakes stand in for zeroconf's AsyncServiceInfo / AsyncZeroconf and for loop.getaddrinfo",
@@ -68,6 +89,11 @@ def run(ctx):
 
 
 def replay(ctx, case):
+    if case.get("kind") == "recon-trace":
+        from vf.props import c18
+
+        c18.replay(ctx, case)
+        return
     if case.get("kind") == "ownership":
         rows = resolvesim.run_ownership(tuple(case["ops"]))
         print(rows)
